@@ -1,0 +1,106 @@
+//go:build verif
+
+package mangos
+
+import (
+	"sync"
+	"sync/atomic"
+)
+
+// Message ledger for the conformance harness in /verif (build tag "verif").
+// Every NewMessage / Clone / Free is reported with a serial number that
+// identifies the message between NewMessage and its release, the reference
+// count before the operation and the buffer geometry.  When the last
+// reference is dropped the body buffer is overwritten, so that anybody still
+// reading a released message sees garbage instead of plausible data.
+
+// VerifMsgEvent is one ledger entry.
+type VerifMsgEvent struct {
+	Op     string // new | clone | free
+	Serial int64
+	Ref    int32 // reference count before the operation (new: 1 afterwards)
+	Len    int   // len(Body) (new: requested size)
+	Cap    int   // cap(Body)
+	HLen   int
+}
+
+var (
+	verifLedgerMu sync.Mutex
+	verifLedger   atomic.Value // func(VerifMsgEvent)
+	verifSerials  = map[*Message]int64{}
+	verifNext     int64
+)
+
+// VerifSetMsgLedger installs (or, with nil, removes) the ledger callback.
+func VerifSetMsgLedger(fn func(VerifMsgEvent)) {
+	verifLedgerMu.Lock()
+	verifSerials = map[*Message]int64{}
+	verifLedgerMu.Unlock()
+	if fn == nil {
+		verifLedger.Store((func(VerifMsgEvent))(nil))
+		return
+	}
+	verifLedger.Store(fn)
+}
+
+// VerifMsgSerial returns the ledger serial of a live message (0 if unknown).
+func VerifMsgSerial(m *Message) int64 {
+	verifLedgerMu.Lock()
+	defer verifLedgerMu.Unlock()
+	return verifSerials[m]
+}
+
+func verifFn() func(VerifMsgEvent) {
+	fn, _ := verifLedger.Load().(func(VerifMsgEvent))
+	return fn
+}
+
+func verifMsgNew(m *Message, sz int) {
+	fn := verifFn()
+	if fn == nil {
+		return
+	}
+	verifLedgerMu.Lock()
+	verifNext++
+	s := verifNext
+	verifSerials[m] = s
+	verifLedgerMu.Unlock()
+	fn(VerifMsgEvent{Op: "new", Serial: s, Ref: 1, Len: sz, Cap: cap(m.Body), HLen: len(m.Header) + len(m.Body)})
+}
+
+func verifMsgClone(m *Message) {
+	fn := verifFn()
+	if fn == nil {
+		return
+	}
+	verifLedgerMu.Lock()
+	s := verifSerials[m]
+	verifLedgerMu.Unlock()
+	fn(VerifMsgEvent{Op: "clone", Serial: s, Ref: atomic.LoadInt32(&m.refcnt), Len: len(m.Body), Cap: cap(m.Body), HLen: len(m.Header)})
+}
+
+func verifMsgFree(m *Message) {
+	fn := verifFn()
+	if fn == nil {
+		return
+	}
+	ref := atomic.LoadInt32(&m.refcnt)
+	verifLedgerMu.Lock()
+	s := verifSerials[m]
+	if ref == 1 {
+		delete(verifSerials, m)
+	}
+	verifLedgerMu.Unlock()
+	fn(VerifMsgEvent{Op: "free", Serial: s, Ref: ref, Len: len(m.Body), Cap: cap(m.Body), HLen: len(m.Header)})
+	if ref == 1 {
+		// last reference: poison what is about to be released
+		b := m.Body[:cap(m.Body)]
+		for i := range b {
+			b[i] = 0xDD
+		}
+		h := m.Header[:cap(m.Header)]
+		for i := range h {
+			h[i] = 0xDD
+		}
+	}
+}
